@@ -25,6 +25,9 @@ func collTemplates(c *CheckRun, kind int) []histB {
 			out = append(out, histB{kind: kind, ops: [][2]int{{opInsert, k0}, {opInsert, k1}, {opDelete, k0}}, probes: []int{k1}, label: "coll ins ins del"})
 			out = append(out, histB{kind: kind, ops: [][2]int{{opInsert, k0}, {opDelete, k0}, {opInsert, k1}}, probes: []int{k0}, label: "coll ins del ins"})
 			out = append(out, histB{kind: kind, ops: [][2]int{{opInsert, k0}, {opInsert, k0}, {opDelete, k1}}, probes: []int{k0}, label: "coll overwrite"})
+			out = append(out, histB{kind: kind, ops: [][2]int{{opInsert, k1}, {opInsert, k0}, {opInsert, k1}}, probes: []int{k1}, label: "coll overwrite of a multi-byte key"})
+			// a probed / deleted string that is absent but collates like a stored one (canonically equivalent spelling)
+			out = append(out, histB{kind: kind, ops: [][2]int{{opInsert, k0}, {opInsert, k1}, {opDelete, cSpec(6, l1)}}, probes: []int{cSpec(6, l1)}, label: "coll absent look-alike"})
 			for _, l2 := range lens {
 				k2 := cSpec(2, l2+1) // "ab"
 				out = append(out, histB{kind: kind, ops: [][2]int{{opInsert, k0}, {opInsert, k1}, {opInsert, k2}}, probes: []int{cSpec(4, 2)}, label: "coll 3 keys"})
